@@ -380,7 +380,10 @@ def hasDup : List Rat → Bool
   | [] => false
   | x :: xs => xs.contains x || hasDup xs
 
-/-- `create_aligned_global_axes`; `none` = AlignDatasetError -/
+/-- `create_aligned_global_axes`; `none` = AlignDatasetError.  The accumulated target is
+    `np.unique(np.concatenate([aligned_axis_values, aligned_global_axis]))`: after the second dataset
+    it is sorted and duplicate-free even when the first dataset's own axis is not (the first
+    dataset's axis itself is the target of the second one verbatim). -/
 def alignAxes (axes : List (List Rat)) (tol : Rat) (m : Method) : Option (List (List Rat)) :=
   match axes with
   | [] => some []
@@ -391,7 +394,7 @@ def alignAxes (axes : List (List Rat)) (tol : Rat) (m : Method) : Option (List (
       | some (vals, done) =>
         let al := ax.map (fun x => alignIndex x vals tol m)
         if hasDup al then none
-        else some (sortedUnion vals al, done ++ [al])) (some (first, [first]))).map (·.2)
+        else some (sortedUnion [] (vals ++ al), done ++ [al])) (some (first, [first]))).map (·.2)
 
 structure Group where
   linked : Bool
@@ -400,6 +403,14 @@ structure Group where
   method : Method
   datasets : List Dataset
   deriving Repr, Inhabited
+
+/-- `aligned_global_axis`: the outer-joined coordinate of all aligned axes -/
+def alignedAxisOf (aligned : List (List Rat)) : List Rat := aligned.foldl sortedUnion []
+
+/-- for one aligned value: (dataset number, local index) of the members, in dataset order —
+    the member selection of `linkedProblems` on dataset numbers -/
+def memberIdx (aligned : List (List Rat)) (v : Rat) : List (Nat × Nat) :=
+  ((List.range aligned.length).zip aligned).filterMap (fun da => (da.2.idxOf? v).map (fun i => (da.1, i)))
 
 /-- for one aligned value: the member datasets with their local index, in dataset order -/
 def membersAt (ds : List Dataset) (aligned : List (List Rat)) (v : Rat) : List (Dataset × Nat) :=
@@ -508,7 +519,51 @@ def modLast {α} (l : List α) (f : α → α) : List α :=
   | [] => []
   | x :: xs => (f x :: xs).reverse
 
+def parseMethodStrict : Tree → Option Method
+  | .atom "nearest" => some .nearest
+  | .atom "backward" => some .backward
+  | .atom "forward" => some .forward
+  | _ => none
+
+/-- the alignment tables on dataset numbers: aligned axis, and per aligned point the member
+    dataset numbers and their local indices -/
+def showAlignTables (aligned : List (List Rat)) : String :=
+  let axis := alignedAxisOf aligned
+  let mem := axis.map (memberIdx aligned)
+  "ok axis=" ++ showRats axis
+    ++ " ds=" ++ showList (mem.map (fun ms => showNats (ms.map (·.1))))
+    ++ " idx=" ++ showList (mem.map (fun ms => showNats (ms.map (·.2))))
+
+/-- stateless alignment ops (same protocol as the C09 driver, used by C09's three-way correspondence):
+    `align x [target] tol method` → the aligned value;
+    `axes tol method [[axis],…]` → `ok [[aligned],…]` / `err AlignDataset`;
+    `aligntables tol method [[axis],…]` → `ok axis=… ds=… idx=…` / `err AlignDataset` -/
+def alignOps (ts : List Tree) : Option String :=
+  match ts with
+  | [.atom "align", x, tgt, tol, m] =>
+    match x.rat?, tgt.rats?, tol.rat?, parseMethodStrict m with
+    | some x, some tgt, some tol, some m => some (showRat (alignIndex x tgt tol m))
+    | _, _, _, _ => some "bad-op"
+  | [.atom "axes", tol, m, axes] =>
+    match tol.rat?, parseMethodStrict m, axes.ratss? with
+    | some tol, some m, some axes =>
+      match alignAxes axes tol m with
+      | none => some "err AlignDataset"
+      | some al => some ("ok " ++ showList (al.map showRats))
+    | _, _, _ => some "bad-op"
+  | [.atom "aligntables", tol, m, axes] =>
+    match tol.rat?, parseMethodStrict m, axes.ratss? with
+    | some tol, some m, some axes =>
+      match alignAxes axes tol m with
+      | none => some "err AlignDataset"
+      | some al => some (showAlignTables al)
+    | _, _, _ => some "bad-op"
+  | _ => none
+
 def driverStep (s : DState) (ts : List Tree) : DState × String :=
+  match alignOps ts with
+  | some ans => (s, ans)
+  | none =>
   match ts with
   | [.atom "reset"] => ({}, "ok")
   | [.atom "constraint", kind, target, iv] =>
